@@ -58,7 +58,7 @@ def call(cell, n):
     d = RuleDump(cell, n)
     try:
         X, W = get_quadrature(refdom(cell), n)
-    except NotImplementedError as e:
+    except NotImplementedError:
         d.kind, d.exc = 'raises', 'NotImplementedError'
         return d
     except Exception as e:   # any other exception is also "raises an error"; recorded by type
